@@ -166,6 +166,9 @@ func main() {
 		case args[i] == "--tier" && i+1 < len(args):
 			tier = args[i+1]
 			i++
+		case args[i] == "manifest":
+			manifestCmd()
+			return
 		case args[i] == "dump":
 			dumpCmd(args[i+1:])
 			return
